@@ -65,7 +65,8 @@ pub struct St {
     pub ok: bool, pub oc: int, pub nc: int, pub ro: int, pub rn: int, pub po: int, pub pn: int,
     pub dels: int, pub inss: int, pub eqs: int, pub oe: int, pub ne: int,
     pub fin: bool,          // `finish` has been received: nothing may follow
-    pub strict: bool,       // carried indices are checked (false: only the cursor side of every event is checked)
+    pub lvl: int,           // 0: only the cursor side of every event is checked; 1: carried indices must lie within their run of changes;
+                            // 2: carried indices must be exact (equal to the cursor)
 }
 
 pub open spec fn imax(a: int, b: int) -> int { if a >= b { a } else { b } }
@@ -86,25 +87,25 @@ pub open spec fn rel_implies(a: Rel, b: Rel) -> bool { forall|i: int, j: int| #[
 pub open spec fn step_rel(rel: Rel, st: St, ev: Ev) -> St {
     match ev {
         Ev::Equal(o, n, l) => St {
-            ok: st.ok && !st.fin && l > 0 && o == st.oc && n == st.nc && (st.strict ==> st.po <= st.oc && st.pn <= st.nc)
+            ok: st.ok && !st.fin && l > 0 && o == st.oc && n == st.nc && (st.lvl >= 1 ==> st.po <= st.oc && st.pn <= st.nc)
                 && st.oc + l <= st.oe && st.nc + l <= st.ne
                 && (forall|i: int| 0 <= i < l ==> #[trigger] relk(rel, o as int, n as int, i)),
             oc: st.oc + l, nc: st.nc + l, ro: st.oc + l, rn: st.nc + l, po: st.oc + l, pn: st.nc + l,
             eqs: st.eqs + l, ..st },
         Ev::Delete(o, l, n) => St {
-            ok: st.ok && !st.fin && l > 0 && o == st.oc && (st.strict ==> st.rn <= n) && st.oc + l <= st.oe,
+            ok: st.ok && !st.fin && l > 0 && o == st.oc && (st.lvl >= 1 ==> st.rn <= n) && (st.lvl >= 2 ==> n == st.nc) && st.oc + l <= st.oe,
             oc: st.oc + l, pn: imax(st.pn, n as int), dels: st.dels + l, ..st },
         Ev::Insert(o, n, l) => St {
-            ok: st.ok && !st.fin && l > 0 && n == st.nc && (st.strict ==> st.ro <= o) && st.nc + l <= st.ne,
+            ok: st.ok && !st.fin && l > 0 && n == st.nc && (st.lvl >= 1 ==> st.ro <= o) && (st.lvl >= 2 ==> o == st.oc) && st.nc + l <= st.ne,
             nc: st.nc + l, po: imax(st.po, o as int), inss: st.inss + l, ..st },
         Ev::Replace(o, ol, n, nl) => St {
-            // by definition the same as Delete(o, ol, n) followed by Insert(o, n, nl)
-            ok: st.ok && !st.fin && ol > 0 && nl > 0 && o == st.oc && n == st.nc && (st.strict ==> st.rn <= n && st.ro <= o)
+            // by definition the same as Delete(o, ol, n) followed by Insert(o, n, nl); not a fully exact script (level 2)
+            ok: st.ok && !st.fin && st.lvl <= 1 && ol > 0 && nl > 0 && o == st.oc && n == st.nc && (st.lvl >= 1 ==> st.rn <= n && st.ro <= o)
                 && st.oc + ol <= st.oe && st.nc + nl <= st.ne,
             oc: st.oc + ol, nc: st.nc + nl, pn: imax(st.pn, n as int), po: imax(st.po, o as int),
             dels: st.dels + ol, inss: st.inss + nl, ..st },
         // `finish` is accepted once, when every carried index is resolved; it closes the script
-        Ev::Finish => St { ok: st.ok && !st.fin && (st.strict ==> st.po <= st.oc && st.pn <= st.nc), fin: true, ..st },
+        Ev::Finish => St { ok: st.ok && !st.fin && (st.lvl >= 1 ==> st.po <= st.oc && st.pn <= st.nc), fin: true, ..st },
     }
 }
 
@@ -146,20 +147,20 @@ pub proof fn lemma_run_empty(rel: Rel, st: St)
 
 /// canonical start state at (o,n) for the box ending at (oe,ne)
 pub open spec fn canon(o: int, n: int, oe: int, ne: int) -> St {
-    St { ok: true, oc: o, nc: n, ro: o, rn: n, po: o, pn: n, dels: 0, inss: 0, eqs: 0, oe: oe, ne: ne, fin: false, strict: true }
+    St { ok: true, oc: o, nc: n, ro: o, rn: n, po: o, pn: n, dels: 0, inss: 0, eqs: 0, oe: oe, ne: ne, fin: false, lvl: 1 }
 }
 
-/// canonical start state that does not check carried indices
-pub open spec fn canon_lax(o: int, n: int, oe: int, ne: int) -> St { St { strict: false, ..canon(o, n, oe, ne) } }
+/// canonical start state at another checking level
+pub open spec fn canon_l(o: int, n: int, oe: int, ne: int, lvl: int) -> St { St { lvl: lvl, ..canon(o, n, oe, ne) } }
 
 pub open spec fn wf(st: St) -> bool {
-    st.ok && !st.fin && st.ro <= st.oc && st.rn <= st.nc && (st.strict ==> st.po <= st.oc && st.pn <= st.nc) && st.oc <= st.oe && st.nc <= st.ne
+    st.ok && !st.fin && st.ro <= st.oc && st.rn <= st.nc && (st.lvl >= 1 ==> st.po <= st.oc && st.pn <= st.nc) && st.oc <= st.oe && st.nc <= st.ne
 }
 
 /// `a` simulates `c`: same cursor, weaker run bounds, wider box
 pub open spec fn sim(a: St, c: St) -> bool {
-    a.oc == c.oc && a.nc == c.nc && a.ro <= c.ro && a.rn <= c.rn && (a.strict ==> a.po <= c.po && a.pn <= c.pn)
-    && a.oe >= c.oe && a.ne >= c.ne && a.fin == c.fin && (a.strict ==> c.strict) && (c.ok ==> a.ok)
+    a.oc == c.oc && a.nc == c.nc && a.ro <= c.ro && a.rn <= c.rn && (a.lvl >= 1 ==> a.po <= c.po && a.pn <= c.pn)
+    && a.oe >= c.oe && a.ne >= c.ne && a.fin == c.fin && a.lvl <= c.lvl && (c.ok ==> a.ok)
 }
 
 pub proof fn lemma_sim_step(r1: Rel, r2: Rel, a: St, c: St, e: Ev)
@@ -198,7 +199,7 @@ pub proof fn lemma_mono(rel: Rel, st: St, s: Seq<Ev>)
   requires st.ro <= st.oc, st.rn <= st.nc
   ensures ({ let st2 = run_rel(rel, st, s); st2.ro <= st2.oc && st2.rn <= st2.nc && st2.oc >= st.oc && st2.nc >= st.nc
       && st2.oe == st.oe && st2.ne == st.ne && st2.eqs >= st.eqs && st2.dels >= st.dels && st2.inss >= st.inss && (st2.ok ==> st.ok)
-      && (st.fin ==> st2.fin) && st2.strict == st.strict && (st2.ok && st.oc <= st.oe && st.nc <= st.ne ==> st2.oc <= st2.oe && st2.nc <= st2.ne) })
+      && (st.fin ==> st2.fin) && st2.lvl == st.lvl && (st2.ok && st.oc <= st.oe && st.nc <= st.ne ==> st2.oc <= st2.oe && st2.nc <= st2.ne) })
   decreases s.len()
 {
     reveal(step_rel);
@@ -208,62 +209,63 @@ pub proof fn lemma_mono(rel: Rel, st: St, s: Seq<Ev>)
 /// A script segment: replayed from the canonical state at (o0,n0) it is well formed, ends at (o1,n1),
 /// never leaves the box [.., o1] x [.., n1], and deletes/inserts exactly what it does not report equal.
 #[verifier::opaque]
-pub open spec fn seg_rel(rel: Rel, s: Seq<Ev>, o0: int, n0: int, o1: int, n1: int) -> bool {
-    let st = run_rel(rel, canon(o0, n0, o1, n1), s);
+pub open spec fn seg_rel(rel: Rel, lvl: int, s: Seq<Ev>, o0: int, n0: int, o1: int, n1: int) -> bool {
+    let st = run_rel(rel, canon_l(o0, n0, o1, n1, lvl), s);
     wf(st) && st.oc == o1 && st.nc == n1 && st.dels == (o1 - o0) - st.eqs && st.inss == (n1 - n0) - st.eqs && st.eqs >= 0
     && o0 <= o1 && n0 <= n1
 }
 
-pub open spec fn seg<Old: Index<usize> + ?Sized, New: Index<usize> + ?Sized>(old: &Old, new: &New, s: Seq<Ev>, o0: int, n0: int, o1: int, n1: int) -> bool
+pub open spec fn seg<Old: Index<usize> + ?Sized, New: Index<usize> + ?Sized>(old: &Old, new: &New, lvl: int, s: Seq<Ev>, o0: int, n0: int, o1: int, n1: int) -> bool
   where New::Output: PartialEq<Old::Output>
-{ seg_rel(rel_of(old, new), s, o0, n0, o1, n1) }
+{ seg_rel(rel_of(old, new), lvl, s, o0, n0, o1, n1) }
 
 /// number of items a segment reports equal (meaningful for segments that satisfy `seg_rel`)
-pub open spec fn seg_eqs(rel: Rel, s: Seq<Ev>, o0: int, n0: int, o1: int, n1: int) -> int {
-    run_rel(rel, canon(o0, n0, o1, n1), s).eqs
+pub open spec fn seg_eqs(rel: Rel, lvl: int, s: Seq<Ev>, o0: int, n0: int, o1: int, n1: int) -> int {
+    run_rel(rel, canon_l(o0, n0, o1, n1, lvl), s).eqs
 }
 
 /// a segment can be replayed from any well-formed state at its start cursor whose box contains it,
 /// under any relation that the segment's relation implies
-pub proof fn lemma_seg_any(rel: Rel, r1: Rel, s: Seq<Ev>, o0: int, n0: int, o1: int, n1: int, st: St)
-  requires seg_rel(rel, s, o0, n0, o1, n1), wf(st), st.oc == o0, st.nc == n0, st.oe >= o1, st.ne >= n1, rel_implies(rel, r1)
+pub proof fn lemma_seg_any(rel: Rel, r1: Rel, lvl: int, s: Seq<Ev>, o0: int, n0: int, o1: int, n1: int, st: St)
+  requires seg_rel(rel, lvl, s, o0, n0, o1, n1), wf(st), st.oc == o0, st.nc == n0, st.oe >= o1, st.ne >= n1, rel_implies(rel, r1), st.lvl <= lvl
   ensures ({ let st2 = run_rel(r1, st, s); wf(st2) && st2.oc == o1 && st2.nc == n1 && st2.oe == st.oe && st2.ne == st.ne
-      && st2.eqs - st.eqs == seg_eqs(rel, s, o0, n0, o1, n1)
+      && st2.eqs - st.eqs == seg_eqs(rel, lvl, s, o0, n0, o1, n1)
       && st2.dels - st.dels == (o1 - o0) - (st2.eqs - st.eqs) && st2.inss - st.inss == (n1 - n0) - (st2.eqs - st.eqs) && st2.eqs >= st.eqs })
 {
     reveal(seg_rel);
-    lemma_sim_run(r1, rel, st, canon(o0, n0, o1, n1), s);
+    lemma_sim_run(r1, rel, st, canon_l(o0, n0, o1, n1, lvl), s);
     lemma_mono(r1, st, s);
 }
 
-pub proof fn lemma_seg_empty(rel: Rel, o: int, n: int)
-  ensures seg_rel(rel, Seq::<Ev>::empty(), o, n, o, n), seg_eqs(rel, Seq::<Ev>::empty(), o, n, o, n) == 0
+pub proof fn lemma_seg_empty(rel: Rel, lvl: int, o: int, n: int)
+  ensures seg_rel(rel, lvl, Seq::<Ev>::empty(), o, n, o, n), seg_eqs(rel, lvl, Seq::<Ev>::empty(), o, n, o, n) == 0
 { reveal(seg_rel); }
 
 pub proof fn lemma_rel_implies_refl(rel: Rel)
   ensures rel_implies(rel, rel)
 {}
 
-pub proof fn lemma_seg_concat(rel: Rel, a: Seq<Ev>, b: Seq<Ev>, o0: int, n0: int, o1: int, n1: int, o2: int, n2: int)
-  requires seg_rel(rel, a, o0, n0, o1, n1), seg_rel(rel, b, o1, n1, o2, n2)
-  ensures seg_rel(rel, a + b, o0, n0, o2, n2),
-      seg_eqs(rel, a + b, o0, n0, o2, n2) == seg_eqs(rel, a, o0, n0, o1, n1) + seg_eqs(rel, b, o1, n1, o2, n2)
+pub proof fn lemma_seg_concat(rel: Rel, lvl: int, a: Seq<Ev>, b: Seq<Ev>, o0: int, n0: int, o1: int, n1: int, o2: int, n2: int)
+  requires seg_rel(rel, lvl, a, o0, n0, o1, n1), seg_rel(rel, lvl, b, o1, n1, o2, n2)
+  ensures seg_rel(rel, lvl, a + b, o0, n0, o2, n2),
+      seg_eqs(rel, lvl, a + b, o0, n0, o2, n2) == seg_eqs(rel, lvl, a, o0, n0, o1, n1) + seg_eqs(rel, lvl, b, o1, n1, o2, n2)
 {
     assert(o1 <= o2 && n1 <= n2 && o0 <= o1 && n0 <= n1) by { reveal(seg_rel); }
-    lemma_run_concat(rel, canon(o0, n0, o2, n2), a, b);
+    lemma_run_concat(rel, canon_l(o0, n0, o2, n2, lvl), a, b);
     // a replayed in the wider box
-    lemma_seg_any(rel, rel, a, o0, n0, o1, n1, canon(o0, n0, o2, n2));
-    let mid = run_rel(rel, canon(o0, n0, o2, n2), a);
-    lemma_seg_any(rel, rel, b, o1, n1, o2, n2, mid);
+    lemma_seg_any(rel, rel, lvl, a, o0, n0, o1, n1, canon_l(o0, n0, o2, n2, lvl));
+    let mid = run_rel(rel, canon_l(o0, n0, o2, n2, lvl), a);
+    lemma_mono(rel, canon_l(o0, n0, o2, n2, lvl), a);
+    lemma_seg_any(rel, rel, lvl, b, o1, n1, o2, n2, mid);
     reveal(seg_rel);
 }
 
 /// one more event at the end of a segment
-pub open spec fn ev_fits(rel: Rel, a: Seq<Ev>, e: Ev, o1: int, n1: int) -> bool {
+pub open spec fn ev_fits(rel: Rel, lvl: int, a: Seq<Ev>, e: Ev, o1: int, n1: int) -> bool {
     match e {
         Ev::Equal(o, n, l) => l > 0 && o == o1 && n == n1 && (forall|i: int| 0 <= i < l ==> #[trigger] relk(rel, o as int, n as int, i)),
         Ev::Delete(o, l, n) => l > 0 && o == o1 && n == n1,
-        Ev::Insert(o, n, l) => l > 0 && n == n1 && (o == o1 || (a.len() > 0 && (a.last() matches Ev::Delete(o_d, l_d, n_d) && o == o_d))),
+        Ev::Insert(o, n, l) => l > 0 && n == n1 && (o == o1 || (lvl <= 1 && a.len() > 0 && (a.last() matches Ev::Delete(o_d, l_d, n_d) && o == o_d))),
         _ => false,
     }
 }
@@ -280,44 +282,44 @@ pub open spec fn ev_eqs(e: Ev) -> int {
     match e { Ev::Equal(o, n, l) => l as int, _ => 0 }
 }
 
-pub proof fn lemma_seg_push(rel: Rel, a: Seq<Ev>, e: Ev, o0: int, n0: int, o1: int, n1: int)
-  requires seg_rel(rel, a, o0, n0, o1, n1), ev_fits(rel, a, e, o1, n1)
-  ensures seg_rel(rel, a.push(e), o0, n0, ev_o1(e, o1), ev_n1(e, n1)),
-      seg_eqs(rel, a.push(e), o0, n0, ev_o1(e, o1), ev_n1(e, n1)) == seg_eqs(rel, a, o0, n0, o1, n1) + ev_eqs(e)
+pub proof fn lemma_seg_push(rel: Rel, lvl: int, a: Seq<Ev>, e: Ev, o0: int, n0: int, o1: int, n1: int)
+  requires seg_rel(rel, lvl, a, o0, n0, o1, n1), ev_fits(rel, lvl, a, e, o1, n1)
+  ensures seg_rel(rel, lvl, a.push(e), o0, n0, ev_o1(e, o1), ev_n1(e, n1)),
+      seg_eqs(rel, lvl, a.push(e), o0, n0, ev_o1(e, o1), ev_n1(e, n1)) == seg_eqs(rel, lvl, a, o0, n0, o1, n1) + ev_eqs(e)
 {
     reveal(step_rel);
     let o2 = ev_o1(e, o1); let n2 = ev_n1(e, n1);
     assert(o0 <= o1 && n0 <= n1) by { reveal(seg_rel); }
-    lemma_seg_any(rel, rel, a, o0, n0, o1, n1, canon(o0, n0, o2, n2));
-    lemma_run_push(rel, canon(o0, n0, o2, n2), a, e);
-    let st = run_rel(rel, canon(o0, n0, o2, n2), a);
-    lemma_mono(rel, canon(o0, n0, o2, n2), a);
+    lemma_seg_any(rel, rel, lvl, a, o0, n0, o1, n1, canon_l(o0, n0, o2, n2, lvl));
+    lemma_run_push(rel, canon_l(o0, n0, o2, n2, lvl), a, e);
+    let st = run_rel(rel, canon_l(o0, n0, o2, n2, lvl), a);
+    lemma_mono(rel, canon_l(o0, n0, o2, n2, lvl), a);
     if a.len() > 0 {
-        lemma_mono(rel, canon(o0, n0, o2, n2), a.drop_last());
-        assert(run_rel(rel, canon(o0, n0, o2, n2), a) == step_rel(rel, run_rel(rel, canon(o0, n0, o2, n2), a.drop_last()), a.last()));
+        lemma_mono(rel, canon_l(o0, n0, o2, n2, lvl), a.drop_last());
+        assert(run_rel(rel, canon_l(o0, n0, o2, n2, lvl), a) == step_rel(rel, run_rel(rel, canon_l(o0, n0, o2, n2, lvl), a.drop_last()), a.last()));
     }
     reveal(seg_rel);
 }
 
 /// before a hook call: the event is acceptable to a relying hook whose expected state was `rs0`
 /// when the segment `s` began
-pub proof fn pre_call(rel: Rel, r1: Rel, s: Seq<Ev>, e: Ev, o0: int, n0: int, oc: int, nc: int, rs0: St)
-  requires seg_rel(rel, s, o0, n0, oc, nc), wf(rs0), rs0.oc == o0, rs0.nc == n0, ev_fits(rel, s, e, oc, nc),
-     rs0.oe >= ev_o1(e, oc), rs0.ne >= ev_n1(e, nc), rel_implies(rel, r1)
+pub proof fn pre_call(rel: Rel, r1: Rel, lvl: int, s: Seq<Ev>, e: Ev, o0: int, n0: int, oc: int, nc: int, rs0: St)
+  requires seg_rel(rel, lvl, s, o0, n0, oc, nc), wf(rs0), rs0.oc == o0, rs0.nc == n0, ev_fits(rel, lvl, s, e, oc, nc),
+     rs0.oe >= ev_o1(e, oc), rs0.ne >= ev_n1(e, nc), rel_implies(rel, r1), rs0.lvl <= lvl
   ensures step_rel(r1, run_rel(r1, rs0, s), e).ok
 {
-    lemma_seg_push(rel, s, e, o0, n0, oc, nc);
-    lemma_seg_any(rel, r1, s.push(e), o0, n0, ev_o1(e, oc), ev_n1(e, nc), rs0);
+    lemma_seg_push(rel, lvl, s, e, o0, n0, oc, nc);
+    lemma_seg_any(rel, r1, lvl, s.push(e), o0, n0, ev_o1(e, oc), ev_n1(e, nc), rs0);
     lemma_run_push(r1, rs0, s, e);
 }
 
-pub proof fn post_call(rel: Rel, r1: Rel, s: Seq<Ev>, e: Ev, o0: int, n0: int, oc: int, nc: int, rs0: St)
-  requires seg_rel(rel, s, o0, n0, oc, nc), ev_fits(rel, s, e, oc, nc)
+pub proof fn post_call(rel: Rel, r1: Rel, lvl: int, s: Seq<Ev>, e: Ev, o0: int, n0: int, oc: int, nc: int, rs0: St)
+  requires seg_rel(rel, lvl, s, o0, n0, oc, nc), ev_fits(rel, lvl, s, e, oc, nc)
   ensures run_rel(r1, rs0, s.push(e)) == step_rel(r1, run_rel(r1, rs0, s), e),
-     seg_rel(rel, s.push(e), o0, n0, ev_o1(e, oc), ev_n1(e, nc)),
-     seg_eqs(rel, s.push(e), o0, n0, ev_o1(e, oc), ev_n1(e, nc)) == seg_eqs(rel, s, o0, n0, oc, nc) + ev_eqs(e)
+     seg_rel(rel, lvl, s.push(e), o0, n0, ev_o1(e, oc), ev_n1(e, nc)),
+     seg_eqs(rel, lvl, s.push(e), o0, n0, ev_o1(e, oc), ev_n1(e, nc)) == seg_eqs(rel, lvl, s, o0, n0, oc, nc) + ev_eqs(e)
 {
-    lemma_seg_push(rel, s, e, o0, n0, oc, nc);
+    lemma_seg_push(rel, lvl, s, e, o0, n0, oc, nc);
     lemma_run_push(r1, rs0, s, e);
 }
 
